@@ -14,7 +14,7 @@ from mc.kernel import Space
 PROPERTY = "C02"
 RULE = (
     "grammar: every sequence of <= 4 line kinds {data, comment, blank} (120 skeletons) x id base {0,1,5} x line ending "
-    "{LF, CRLF, LF without final newline}, canonical spelling read under 13 option sets (reset_index, extra_cols, encoding, "
+    "{LF, CRLF, LF without final newline}, canonical spelling read under 14 option sets (reset_index, extra_cols, encoding, "
     "source kind incl. short-read byte streams, Tree.from_swc); then lexical deviations counted per line: every data row "
     "replaced by every single-dimension spelling variant (leading blanks, separators, trailing fields, float spellings of "
     "each float field, leading zeros in integer fields), every comment/blank line by every variant; thorough adds the full "
@@ -25,7 +25,10 @@ RULE = (
     "the 7 fields and as trailing field, bare words, undecodable bytes) in 6 base documents x 6 sources (StringIO, BytesIO, "
     "BytesIO with 1/2/7-byte reads, path) and 3 APIs (read_swc, Tree.from_swc, lazy Population; 10 source/API pairs), k=2 placements of a 8-entry "
     "menu on the documents with <= 5 lines (quick: <= 3), and a 6-entry menu at the listed positions (thorough: all) of a "
-    "400-row document that spans two decode chunks; sort: every labelled tree LT(n) x every row order (n=5 quick: "
+    "400-row document that spans two decode chunks; sizes: chain documents of EVERY size 1..450 (thorough 900), valid "
+    "(must return exactly n rows through 4 sources) and with a fault at the first/middle/last/appended line; calls: every "
+    "ordered pair (thorough: triple) of reads of 8 different documents (valid, warning, malformed, undecodable, comment-only) x "
+    "sources incl. one file name rewritten between reads x 2 APIs, every returned object re-inspected after later reads; sort: every labelled tree LT(n) x every row order (n=5 quick: "
     "rotations + reversal) x 5 id maps, tagged and all-equal attributes, read with sort_nodes=True (read_swc, read_swc with "
     "an extra column, Tree.from_swc) and without. Oracle: an independent tokenizer (str.split + per-token regexes + int()/float()). "
     "Non-trivial = the document has at least one data row; distinct = distinct case tuple."
@@ -75,6 +78,7 @@ OPTS = [
     ("bytes:7", "read_swc", False, 1, "utf-8"),
     ("text", "from_swc", True, 0, "utf-8"),
     ("path", "from_swc", True, 1, "utf-8"),
+    ("text", "read_swc[]", True, 0, "utf-8"),
 ]
 OPT_DEFAULT, OPT_EXTRA1, OPT_EXTRA2, OPT_TREE = 0, 2, 4, 11
 
@@ -216,18 +220,24 @@ def do_read(R, opt, data, tmp, attempt=False, **more):
     src = swcio.make_source(kind, data, tmp)
     extra = EXTRA_NAMES[:n_extra] or None
     kw = dict(extra_cols=extra, reset_index=reset, encoding=enc, **more)
-    if extra is None:
+    if api == "read_swc[]":  # degenerate argument: an empty list of extra columns
+        kw["extra_cols"] = []
+    elif extra is None:
         del kw["extra_cols"]
 
     def run():
-        if api == "read_swc":
+        # every returned object is retained: its content must not change because of later reads (kernel re-inspects)
+        if api.startswith("read_swc"):
             df, comments = su.read_swc(src, **kw)
+            R.retain(f"{api}:{kind}", lambda: (observe_df(df, n_extra), list(comments)))
             return observe_df(df, n_extra), list(comments)
         if api == "from_swc":
             t = Tree.from_swc(src, **kw)
+            R.retain(f"{api}:{kind}", lambda: (observe_tree(t), list(t.comments)))
             return observe_tree(t), list(t.comments)
         if api == "population":
             t = Population(LazyLoadingTrees([src], **kw))[0]
+            R.retain(f"{api}:{kind}", lambda: (observe_tree(t), list(t.comments)))
             return observe_tree(t), list(t.comments)
         raise ValueError(api)
 
@@ -287,7 +297,7 @@ def check_grammar(case, R):
         if not ok:
             return
         got, got_comments = res
-        compare_table(R, f"grammar:{api}", got, expected_table(rows, reset, n_extra), api != "read_swc", ctx)
+        compare_table(R, f"grammar:{api}", got, expected_table(rows, reset, n_extra), not api.startswith("read_swc"), ctx)
         R.check([c.strip() for c in got_comments] == comments, "comments",
                 lambda: ctx() + f" comments {got_comments!r} want {comments!r}", f"grammar:{api}:comments")
         if trailing:
@@ -404,7 +414,7 @@ def check_encoding(case, R):
         if not R.check(ok, "raises-on-valid", lambda: ctx() + f" raised {res!r}", f"encodings:raises:{api}"):
             return
         got, got_comments = res
-        compare_table(R, f"encodings:{api}", got, expected_table(want[1], True, 0), api != "read_swc", ctx)
+        compare_table(R, f"encodings:{api}", got, expected_table(want[1], True, 0), not api.startswith("read_swc"), ctx)
         R.check([c.strip() for c in got_comments] == want[2], "comments", lambda: ctx() + f" comments {got_comments!r} want {want[2]!r}",
                 f"encodings:{api}:comments")
         R.outcome(tuple(got_comments))
@@ -580,6 +590,131 @@ def gen_long(tier):
                 yield [f"rows{LONG_ROWS}", [[mode, pos, MENU_IDX[nm]]], SRC_APIS_LONG]
 
 
+# ------------------------------------------------------------------ size sweep (every document size)
+
+SIZE_FAULTS = ["short:6", "undecodable:line"]
+SIZE_POS = ["first", "mid", "last", "append"]
+
+
+def check_size(case, R):
+    """case = [n, 'valid'] | [n, fault_name, where].  Documents of EVERY size 1..N: a valid one must come back with
+    exactly n rows whatever the size (chunk / buffer thresholds), a faulted one must raise wherever the fault sits."""
+    n = int(case[0])
+    rows = chain_rows(n)
+    R.state(case)
+    tmp = tempfile.mkdtemp(prefix="c02-")
+    try:
+        if case[1] == "valid":
+            raw = b"\n".join(rows) + b"\n"
+            text = raw.decode()
+            want = reference(text, 0)
+            assert want[0] == "ok" and len(want[1]) == n
+            for kind, api in (("text", "read_swc"), ("bytes", "from_swc"), ("bytes:7", "read_swc"), ("path", "read_swc")):
+                ok, res, _ = do_read(R, (kind, api, True, 0, "utf-8"), text if kind == "text" else raw, tmp)
+                if ok:
+                    compare_table(R, f"sizes:{api}", res[0], expected_table(want[1], True, 0), api != "read_swc",
+                                  lambda: f"valid chain document of {n} rows via {kind}/{api}")
+            R.outcome("valid", n)
+            return
+        fname, where = case[1], case[2]
+        pos = {"first": 0, "mid": n // 2, "last": n - 1, "append": n}[where]
+        lines = list(rows)
+        if where == "append":
+            lines.append(MENU[MENU_IDX[fname]][1])
+        else:
+            lines[pos] = MENU[MENU_IDX[fname]][1]
+        raw = b"\n".join(lines) + b"\n"
+        for kind, api in (("text", "read_swc"), ("bytes", "read_swc"), ("path", "from_swc")):
+            if fname.startswith("undecodable") and kind == "text":
+                continue
+            ok, res, _ = do_read(R, (kind, api, True, 0, "utf-8"), raw if kind != "text" else raw.decode(), tmp, attempt=True)
+            if ok:
+                n_got = len(res[0]["id"])
+                R.fail("accepted-malformed", f"{n}-row chain document with fault {fname} at line {pos} via {kind}/{api}: returned {n_got} rows",
+                       f"fault-truncated:{api}" if n_got < len(lines) else f"fault-accepted-as-row:{fname}")
+        R.outcome(fname, where)
+    finally:
+        shutil.rmtree(tmp, ignore_errors=True)
+
+
+def gen_sizes(tier):
+    hi = 450 if tier == "quick" else 900
+    for n in range(1, hi + 1):
+        yield [n, "valid"]
+        for f in SIZE_FAULTS:
+            for w in SIZE_POS:
+                if n == 1 and w in ("mid", "last"):
+                    continue
+                yield [n, f, w]
+
+
+# ------------------------------------------------------------------ call histories (state that survives between reads)
+
+CALL_DOCS = [
+    b"# a\n1 1 0 0 0 1 -1\n2 3 1 0 0 1 1\n",
+    b"# g\n1 1 9 9 9 9 -1\n2 3 8 8 8 8 1\n",                       # same shape as the first, other values
+    b"1 1 0.5 0 0 1 -1 9 9\n# b1\n2 3 1 0 0 1 1 9 9\n3 3 2 0 0 1 2 9 9\n# b2\n",  # trailing fields: must warn
+    b"5 1 0 0 0 2 -1 4\n",                                                  # trailing fields again: must warn again
+    b"7 1 3 3 3 1 -1\n",
+    b"1 1 0 0 0 1 -1\n2 3 1 0 0 x 1\n3 3 2 0 0 1 2\n",                 # malformed in the middle
+    b"1 1 0 0 0 1 -1\n\xff\xfe\n",                                       # undecodable (text sources: mojibake line, also malformed)
+    b"# only a comment\n",
+]
+CALL_KINDS = ("text", "bytes", "path-same")
+CALL_APIS = ("read_swc", "from_swc")
+
+
+def check_calls(case, R):
+    """A sequence of reads of different documents (valid, malformed, empty) in one process; every valid result is judged
+    when returned and re-judged after the later reads; 'path-same' rewrites ONE file name with each document."""
+    seq = [(int(d), k, a) for d, k, a in case]
+    R.state(seq)
+    tmp = tempfile.mkdtemp(prefix="c02-")
+    live = []
+    try:
+        for di, kind, api in seq:
+            raw = CALL_DOCS[di]
+            try:
+                text = raw.decode("utf-8")
+            except UnicodeDecodeError:
+                text = raw.decode("latin-1")  # a text stream cannot be undecodable; the line is still malformed
+            want = reference(text, 0)
+            data = text if kind == "text" else raw
+            k2 = "path" if kind == "path-same" else kind
+            opt = (k2, api, True, 0, "utf-8")
+            ctx = lambda: f"sequence={seq} at doc {di} {raw!r} via {kind}/{api}"  # noqa: E731
+            src_kw = {}
+            if want[0] == "bad" or not want[1]:
+                ok, res, _ = do_read(R, opt, data, tmp, attempt=True)
+                if want[0] == "bad":
+                    R.check(not ok, "accepted-malformed", lambda: ctx() + f" returned {res}", f"calls:accepted-malformed:{api}")
+                elif ok:
+                    R.check(len(res[0]["id"]) == 0, "row-count", lambda: ctx() + f" rows from nothing {res}", "calls:rows-from-nothing")
+                continue
+            ok, res, warns = do_read(R, opt, data, tmp, **src_kw)
+            if not ok:
+                continue
+            want_tab = expected_table(want[1], True, 0)
+            good = compare_table(R, f"calls:{api}", res[0], want_tab, api != "read_swc", ctx)
+            good &= R.check([c.strip() for c in res[1]] == want[2], "comments", lambda: ctx() + f" comments {res[1]!r} want {want[2]!r}",
+                            f"calls:{api}:comments")
+            if want[3]:
+                R.check(len(warns) >= 1, "no-warning-for-ignored-fields", ctx, f"calls:{api}:no-warning")
+            R.outcome(di, kind, api, res[0]["x"], tuple(res[1]), bool(warns))
+    finally:
+        shutil.rmtree(tmp, ignore_errors=True)
+
+
+def gen_calls(tier):
+    elems = [(d, k, a) for d in range(len(CALL_DOCS)) for k in CALL_KINDS for a in CALL_APIS]
+    for pair in itertools.product(elems, repeat=2):
+        yield [list(e) for e in pair]
+    if tier != "quick":
+        few = [(d, k, "read_swc") for d in range(len(CALL_DOCS)) for k in ("text", "path-same")]
+        for tri in itertools.product(few, repeat=3):
+            yield [list(e) for e in tri]
+
+
 # ------------------------------------------------------------------ sort space
 
 ID_MAPS = ("ident", "plus1", "10i+3", "reversed", "scattered")
@@ -707,6 +842,12 @@ def spaces(tier, seed):
         Space.of("faults-long", lambda: gen_long(tier), check_fault,
                  bounds={"rows": LONG_ROWS, "positions": long_positions(tier) if quick else "all 401", "modes": ["insert", "replace"],
                          "menu": MENU_LONG, "sources": SRC_APIS_LONG}),
+        Space.of("sizes", lambda: gen_sizes(tier), check_size,
+                 bounds={"rows": [1, 450 if quick else 900], "every_size": True, "valid_sources": ["text", "bytes", "bytes:7", "path"],
+                         "faults": SIZE_FAULTS, "fault_positions": SIZE_POS, "fault_sources": ["text", "bytes", "path"]}),
+        Space.of("calls", lambda: gen_calls(tier), check_calls,
+                 bounds={"docs": len(CALL_DOCS), "kinds": list(CALL_KINDS), "apis": list(CALL_APIS),
+                         "sequences": "all ordered pairs" + ("" if quick else "; all ordered triples over read_swc x {text, path-same}")}),
         Space.of("sort", lambda: gen_sort(tier), check_sort,
                  bounds={"LT_max_nodes": 5, "row_orders": "all n! for n<=4; n=5: " + ("5 rotations + reversal" if quick else "all 120"),
                          "id_maps": list(ID_MAPS), "attributes": ["tagged", "all-equal"]}),
